@@ -19,6 +19,7 @@ import Driver.C14
 import Driver.C15
 import Driver.C17
 import Driver.C18
+import Driver.C19
 import Driver.C36
 import Driver.C33
 import Driver.C32
@@ -40,6 +41,7 @@ def step (line : String) : String :=
   | "C15" :: ts => stepC15 ts
   | "C17" :: ts => stepC17 ts
   | "C18" :: ts => stepC18 ts
+  | "C19" :: ts => stepC19 ts
   | "C22" :: ts => stepC22 ts
   | "C23" :: ts => stepC23 ts
   | "C24" :: ts => stepC24 ts
